@@ -64,7 +64,7 @@ func ruleJSONKinds(r *core.Reporter) {
 				okLoop := true
 				for _, ii := range ir.Ifs(fn) {
 					if e2, ok2 := ii.Atom.V.(*ssa.Extract); ok2 && e2.Tuple == ssa.Value(nx) {
-						body := ir.Pt{B: ii.If.Block().Succs[ii.EdgeWhen(true)], I: 0}
+						body := ir.EdgePt(ii.If.Block(), ii.EdgeWhen(true))
 						rs := ir.Reach([]ir.Pt{body}, ir.Opts{Stop: func(x ssa.Instruction) bool { return x == ssa.Instruction(ii.If) }})
 						exit := ii.If.Block().Succs[ii.EdgeWhen(false)]
 						if len(exit.Instrs) > 0 && rs.Reached[exit.Instrs[0]] {
@@ -304,7 +304,7 @@ func ruleM3U8Kinds(r *core.Reporter) {
 			if !okl {
 				return
 			}
-			body := ir.Pt{B: l.If.Block().Succs[l.EdgeWhen(true)], I: 0}
+			body := ir.EdgePt(l.If.Block(), l.EdgeWhen(true))
 			rs := ir.Reach([]ir.Pt{body}, ir.Opts{Stop: func(x ssa.Instruction) bool { return x == ssa.Instruction(l.If) }})
 			for x := range rs.Reached {
 				c, isC := x.(*ssa.Call)
@@ -376,7 +376,7 @@ func ruleAssetOutlinkSplit(r *core.Reporter) {
 		}
 		// each side appends exactly once to a different result
 		sideAppend := func(t bool) (string, int) {
-			start := ir.Pt{B: split.If.Block().Succs[split.EdgeWhen(t)], I: 0}
+			start := ir.EdgePt(split.If.Block(), split.EdgeWhen(t))
 			rs := ir.Reach([]ir.Pt{start}, ir.Opts{Stop: func(x ssa.Instruction) bool { return x == ssa.Instruction(l.If) }})
 			n, target := 0, ""
 			for x := range rs.Reached {
@@ -482,10 +482,10 @@ func ruleS3Fields(r *core.Reporter) {
 				if a.V == nil && a.Op == token.EQL {
 					if sv, okc := ir.ConstString(a.Y); okc && sv == "2" && strings.Contains(ir.Path(a.X), `Get("list-type")`) {
 						mine, other := ii.EdgeWhen(nm == "s3V2"), ii.EdgeWhen(nm != "s3V2")
-						rm := ir.Reach([]ir.Pt{{B: ii.If.Block().Succs[mine], I: 0}}, ir.Opts{}).Reached
-						ro := ir.Reach([]ir.Pt{{B: ii.If.Block().Succs[other], I: 0}}, ir.Opts{}).Reached
+						rm := ir.Reach([]ir.Pt{ir.EdgePt(ii.If.Block(), mine)}, ir.Opts{}).Reached
+						ro := ir.Reach([]ir.Pt{ir.EdgePt(ii.If.Block(), other)}, ir.Opts{}).Reached
 						inRegion = func(in ssa.Instruction) bool { return rm[in] && !ro[in] }
-						entry = ir.Pt{B: ii.If.Block().Succs[mine], I: 0}
+						entry = ir.EdgePt(ii.If.Block(), mine)
 						fn = sfnTop
 						reqRoot = "$" + sfnTop.Params[0].Name() + ".GetRequest().URL"
 					}
@@ -612,7 +612,7 @@ func ruleS3Fields(r *core.Reporter) {
 			if field == "Contents" {
 				// object link only under Size > 0, and always then
 				var app ssa.Instruction
-				body := ir.Pt{B: l.If.Block().Succs[l.EdgeWhen(true)], I: 0}
+				body := ir.EdgePt(l.If.Block(), l.EdgeWhen(true))
 				rs := ir.Reach([]ir.Pt{body}, ir.Opts{Stop: func(x ssa.Instruction) bool { return x == ssa.Instruction(l.If) }})
 				for x := range rs.Reached {
 					if c, ok := x.(*ssa.Call); ok && ir.CallName(c.Common()) == "builtin.append" {
